@@ -2044,8 +2044,8 @@ func (f *fragment) mergeBlock(id int, data []pairSet) (sets, clears []pairSet, e
 				sets[i].rowIDs = append(sets[i].rowIDs, min.rowID)
 				sets[i].columnIDs = append(sets[i].columnIDs, min.columnID)
 			} else {
-				clears[i].rowIDs = append(sets[i].rowIDs, min.rowID)
-				clears[i].columnIDs = append(sets[i].columnIDs, min.columnID)
+				clears[i].rowIDs = append(clears[i].rowIDs, min.rowID)
+				clears[i].columnIDs = append(clears[i].columnIDs, min.columnID)
 			}
 		}
 	}
